@@ -208,10 +208,17 @@ type resolver struct {
 }
 
 func (r *resolver) resolve(s *Schema, baseURI *url.URL) (*Resolved, error) {
+	return r.resolveAs(s, baseURI, detectDraft(s))
+}
+
+// resolveAs is like resolve, but treats s as a document of draft d
+// instead of consulting its $schema.
+func (r *resolver) resolveAs(s *Schema, baseURI *url.URL, d draft) (*Resolved, error) {
 	if baseURI.Fragment != "" {
 		return nil, fmt.Errorf("base URI %s must not have a fragment", baseURI)
 	}
 	rs := newResolved(s)
+	rs.draft = d
 	verifPoint("resolve")
 
 	if err := s.check(rs.resolvedInfos); err != nil {
@@ -562,10 +569,13 @@ func (r *resolver) resolveRef(rs *Resolved, s *Schema, ref string) (_ *Schema, d
 			// Check if referenced schema has $schema defined. If not it should inherit the
 			// draft of the referring document (its root's $schema, not that of the subschema
 			// holding the $ref, which is normally empty).
+			// The loaded schema itself is left alone: a Loader may hand out the same
+			// *Schema to later Resolve calls whose roots are of another draft.
+			d := detectDraft(ls)
 			if ls.Schema == "" {
-				ls.Schema = rs.root.Schema
+				d = rs.draft
 			}
-			lrs, err := r.resolve(ls, fraglessRefURI)
+			lrs, err := r.resolveAs(ls, fraglessRefURI, d)
 			if err != nil {
 				return nil, "", err
 			}
